@@ -337,6 +337,85 @@ def r6_manifest_is_overwritten(ctx):
     ctx.floor('C10.R6', 'index_mut assignments into the existing manifest', n_idx, 3)
 
 
+def r7_cacheability(ctx):
+    ctx.rule('C10.R7', 'P7 must-depend: in PavexIndexer::index the `can_cache_indexes` flag of the result depends on every phase that can report a '
+             'diagnostic: for each call that is handed the diagnostic sink (directly or inside the visitor), the flag derives from '
+             'DiagnosticSink::len() evaluated after that call, or from a value that call returns or mutates, read after it. A crate whose '
+             'annotations are broken must not be cached as fully processed: the cold run would report the error and every warm run would not.')
+    fn = '<pavexc::rustdoc::indexer::PavexIndexer as rustdoc_processor::indexing::CrateIndexer>::index'
+    b = ctx.need('C10.R7', 'PavexIndexer::index', ctx.fb.body('pavexc', fn))
+    if b is None:
+        return
+    from ..flow import forward_derived, rv_operands
+    defs = Defs(b)
+    LEN = 'pavexc::diagnostic::sink::DiagnosticSink::len'
+    seeds = set()
+    for bb, j, st in b.all_assigns():
+        rv = st['rv']
+        if rv['k'] == 'ref' and 'f:diagnostic_sink' in rv['pl'].get('p', []) and not st['lhs'].get('p'):
+            seeds.add(st['lhs']['l'])
+    if not ctx.need('C10.R7', 'reads of self.diagnostic_sink', seeds):
+        return
+    derived = set(seeds)
+    while True:
+        # copies / references / aggregates that hold the sink (the visitor struct)
+        more = forward_derived(b, derived, through_calls=False)
+        for bb, j, st in b.all_assigns():
+            rv = st['rv']
+            if rv['k'] == 'agg' and not st['lhs'].get('p') and any(op_place(o) is not None and op_place(o)['l'] in more for o in rv['ops']):
+                more.add(st['lhs']['l'])
+        if more == derived:
+            break
+        derived = more
+    flag = None
+    for bb, j, st in b.all_assigns():
+        rv = st['rv']
+        if rv['k'] == 'agg' and rv.get('ak') == 'adt' and 'can_cache_indexes' in rv.get('fields', []):
+            flag = op_place(rv['ops'][rv['fields'].index('can_cache_indexes')])
+    if ctx.need('C10.R7', 'IndexResult { can_cache_indexes, .. }', flag) is None:
+        return
+    sl, _ = backward_slice(b, flag['l'], defs)
+    nodes = [(nbb, node) for nbb, _, node in sl]
+    n = 0
+    for cb, t in b.calls():
+        c = callee(t) or ''
+        if c == LEN or not any(op_place(a) is not None and op_place(a)['l'] in derived for a in t['args']):
+            continue
+        if c.startswith('core::') and c.split('::')[-1] in ('deref', 'borrow', 'as_ref', 'clone'):
+            continue
+        n += 1
+        # what the call can change: its destination and everything it got by `&mut`
+        touched = set()
+        if t.get('dest') is not None:
+            touched.add(t['dest']['l'])
+        for a in t['args']:
+            pl = op_place(a)
+            if pl is None:
+                continue
+            asl, _ = backward_slice(b, pl['l'], defs, through_calls=False)
+            for _, _, nd in asl:
+                rv = nd.get('rv')
+                if rv and rv['k'] == 'ref' and rv['bk'] == 'mut':
+                    touched.add(rv['pl']['l'])
+        ok = False
+        how = 'nothing the flag is computed from is evaluated after this call'
+        for nbb, node in nodes:
+            if nbb == cb or not b.dominates(cb, nbb):
+                continue
+            if node.get('k') == 'call' and callee(node) == LEN:
+                ok, how = True, 'DiagnosticSink::len() is evaluated after it (%s)' % b.loc(nbb, node)
+                break
+            if 'rv' in node:
+                ops, pls = rv_operands(node['rv'])
+                rd = {q['l'] for q in pls} | {op_place(o)['l'] for o in ops if op_place(o) is not None}
+                if rd & touched:
+                    ok, how = True, 'a value this call returns or mutates is read after it (%s)' % b.loc(nbb, node)
+                    break
+        ctx.ob('C10.R7', 'flag-depends-on|%s' % c.split('::')[-2] + '::' + c.split('::')[-1], ok, b.loc(cb, t),
+               '%s can report diagnostics; can_cache_indexes: %s' % (c.split('::')[-1], how))
+    ctx.floor('C10.R7', 'calls that are handed the diagnostic sink', n, 2)
+
+
 def check(ctx):
     r1_hash_order(ctx)
     r2_single_writer(ctx)
@@ -344,3 +423,4 @@ def check(ctx):
     r4_cache_key(ctx)
     r5_parallel(ctx)
     r6_manifest_is_overwritten(ctx)
+    r7_cacheability(ctx)
